@@ -93,6 +93,22 @@ func c09Parse(c *c09Case) (panicked interface{}, stack string, err error) {
 		_, err = mail.EMLToMsgFromString(string(c.Doc))
 		return
 	}
+	if c.Reader == "file-missing" || c.Reader == "file-dir" {
+		// the file entry point with a path that cannot be read: a name that does not exist, a directory
+		path := filepath.Join(env.Dir, fmt.Sprintf("c09-gone-%d-%d.eml", os.Getpid(), c09FileSeq.Add(1)))
+		if c.Reader == "file-dir" {
+			if merr := os.Mkdir(path, 0o700); merr != nil {
+				return nil, "", nil
+			}
+			defer os.Remove(path)
+		}
+		var m *mail.Msg
+		m, err = mail.EMLToMsgFromFile(path)
+		if err == nil {
+			err = fmt.Errorf("VERIF-NO-ERROR: EMLToMsgFromFile(%s path) returned a message (%v) and no error", c.Reader, m != nil)
+		}
+		return
+	}
 	if c.Reader == "file" {
 		path := filepath.Join(env.Dir, fmt.Sprintf("c09-%d-%d.eml", os.Getpid(), c09FileSeq.Add(1)))
 		if werr := os.WriteFile(path, c.Doc, 0o600); werr != nil {
@@ -150,6 +166,10 @@ func c09Run(c c09Case) []*core.Violation {
 	if p != nil {
 		return []*core.Violation{core.V("panic", "EML parsing panicked (reader %s): %v", c.Reader, p)}
 	}
+	if err != nil && strings.HasPrefix(err.Error(), "VERIF-NO-ERROR") {
+		// "a message or an error": a path that cannot be read gives no message
+		return []*core.Violation{core.V("no-error", "%s", strings.TrimPrefix(err.Error(), "VERIF-NO-ERROR: "))}
+	}
 	low := bytes.ToLower(c.Doc)
 	reaches := bytes.Contains(low, []byte("multipart/")) && bytes.Contains(low, []byte("boundary=")) || bytes.Contains(low, []byte("content-disposition"))
 	if reaches {
@@ -190,7 +210,7 @@ func c09Gen(t *rapid.T) c09Case {
 		doc = doc[:64*1024]
 	}
 	c := c09Case{Doc: []byte(doc)}
-	c.Reader = rapid.SampledFrom([]string{"whole", "whole", "string", "file", "onebyte", "errat", "dataerr", "zeros", "timeoutat"}).Draw(t, "reader")
+	c.Reader = rapid.SampledFrom([]string{"whole", "whole", "string", "file", "onebyte", "errat", "dataerr", "zeros", "timeoutat", "file-missing", "file-dir"}).Draw(t, "reader")
 	switch c.Reader {
 	case "errat", "timeoutat":
 		c.K = rapid.IntRange(0, len(doc)).Draw(t, "errat")
@@ -202,7 +222,7 @@ func c09Gen(t *rapid.T) c09Case {
 
 func c09Describe() {
 	rec := core.Rec("C09")
-	rec.Rule = "inputs from three sources: (1) a grammar-based generator of EML documents (header lists with valid and broken addresses/dates/encoded-words; single-part and nested multipart bodies up to depth 3, all transfer encodings, file parts with quoted/unquoted/missing/extra Content-Disposition parameters, reused boundaries, missing close delimiters), (2) renderings of generated go-mail messages, (3) arbitrary bytes; each followed by 0..6 structure-aware mutations (parameter value emptied / unquoted / half-quoted / oversized, truncation at any byte, range deletion, line duplication, CRLF->LF/CR, insertion of hostile header constants, header name without value, transfer encodings swapped, boundary damage, byte flips); reader behaviours: whole buffer, string entry point, file entry point (EMLToMsgFromFile), 1-byte reads, error at offset k (with data), (n>0, EOF) together, up to 50 leading (0, nil) reads. Thorough adds native coverage-guided fuzzing of EMLToMsgFromReader seeded with the repository's testdata/*.eml and a dictionary of the hostile constants. " +
+	rec.Rule = "inputs from three sources: (1) a grammar-based generator of EML documents (header lists with valid and broken addresses/dates/encoded-words; single-part and nested multipart bodies up to depth 3, all transfer encodings, file parts with quoted/unquoted/missing/extra Content-Disposition parameters, reused boundaries, missing close delimiters), (2) renderings of generated go-mail messages, (3) arbitrary bytes; each followed by 0..6 structure-aware mutations (parameter value emptied / unquoted / half-quoted / oversized, truncation at any byte, range deletion, line duplication, CRLF->LF/CR, insertion of hostile header constants, header name without value, transfer encodings swapped, boundary damage, byte flips); reader behaviours: whole buffer, string entry point, file entry point (EMLToMsgFromFile, also with a path that does not exist or is a directory), 1-byte reads, error at offset k (with data), (n>0, EOF) together, up to 50 leading (0, nil) reads. Thorough adds native coverage-guided fuzzing of EMLToMsgFromReader seeded with the repository's testdata/*.eml and a dictionary of the hostile constants. " +
 		"Oracle: the call returns (message or error) without panic and within 10 s (three orders of magnitude above the normal run time; a time-out must repeat three times in a row). Non-trivial: the input has a multipart content type with a boundary parameter or a Content-Disposition field, i.e. reaches the multipart / attachment code. Distinct by (input hash, reader)."
 	rec.Assumptions = []string{"inputs are at most 64 KiB", "termination is observed with a generous wall-clock bound (10 s for inputs <= 64 KiB), not proved"}
 }
